@@ -28,26 +28,26 @@ namespace CaddyModel.C14
     operation index, process death or reported error, before or after the effect — a
     start-up of the current code maps a store satisfying `InvAt` to one satisfying it. -/
 theorem interrupted_startup_keeps_invariant (e : Event) (d : Disk) (t : Nat)
-    (h : InvAt t d.store) (ht : t ≤ e.cfg.now) : InvAt e.cfg.now (e.after codeOrder d).store := by
-  have := wp_sound e.fault (startup .keyFirst e.cfg) _ (boot d) (wp_startup_inv e.cfg d.store d.fresh (h.mono ht))
+    (h : InvAt t d.store) : InvAt e.cfg.now (e.after codeOrder d).store := by
+  have := wp_sound e.fault (startup .keyFirst e.cfg) _ (boot d) (wp_startup_inv e.cfg d.store d.fresh h.any)
   exact this.store_all (fun _ _ _ h => h.1) (fun _ _ h => h) (fun _ h => h)
 
 /-- **every history of interrupted start-ups leaves a recoverable store.** -/
-theorem reachable_invariant : ∀ (evs : List Event) (t : Nat) (d : Disk), InvAt t d.store → Monotone t evs →
+theorem reachable_invariant : ∀ (evs : List Event) (t : Nat) (d : Disk), InvAt t d.store →
     InvAt (lastTime t evs) (runHist codeOrder evs d).store
-  | [], _, _, h, _ => h
-  | e :: es, t, d, h, hm =>
-    reachable_invariant es e.cfg.now (e.after codeOrder d)
-      (interrupted_startup_keeps_invariant e d t h hm.1) hm.2
+  | [], _, _, h => h
+  | e :: es, t, d, h =>
+    reachable_invariant es e.cfg.now (e.after codeOrder d) (interrupted_startup_keeps_invariant e d t h)
 
 /-- **recovery.**  After ANY history of start-ups on an initially empty storage, each of them
     interrupted at any storage operation in any of the four ways (or not at all), the next
     uninterrupted start-up succeeds, the chain and keys it holds are mutually consistent, and
-    they are exactly what the storage then contains. -/
-theorem recovery (evs : List Event) (hm : Monotone 0 evs) (c : Cfg) (hc : lastTime 0 evs ≤ c.now) :
+    they are exactly what the storage then contains.  (No assumption about the clock.) -/
+theorem recovery (evs : List Event) (c : Cfg) :
     ∃ m y, (Event.mk c none).run codeOrder (runHist codeOrder evs Disk.empty) = .ok m y ∧
       m.Consistent ∧ Complete y.store m := by
-  have hinv := (reachable_invariant evs 0 Disk.empty (InvAt.empty 0) hm).mono hc
+  have hinv : InvAt c.now (runHist codeOrder evs Disk.empty).store :=
+    (reachable_invariant evs 0 Disk.empty (InvAt.empty 0)).any
   have := wpn_sound (startup .keyFirst c) _ (boot (runHist codeOrder evs Disk.empty))
     (wpn_startup c _ (runHist codeOrder evs Disk.empty).fresh hinv)
   unfold Event.run
@@ -64,13 +64,39 @@ theorem recovery_after_interrupted_creation (k : Nat) (mode : Mode) (life life' 
     ∃ m y, (Event.mk ⟨2, life'⟩ none).run codeOrder
         ((Event.mk ⟨1, life⟩ (some ⟨k, mode⟩)).after codeOrder Disk.empty) = .ok m y ∧
       m.Consistent ∧ Complete y.store m :=
-  recovery [⟨⟨1, life⟩, some ⟨k, mode⟩⟩] ⟨Nat.zero_le _, trivial⟩ ⟨2, life'⟩ (by simp [lastTime])
+  recovery [⟨⟨1, life⟩, some ⟨k, mode⟩⟩] ⟨2, life'⟩
+
+/-- **Provision alone already ends consistent.**  After any interrupted history the pair that
+    `Provision` returns — before `Start` runs — is an intermediate certificate with ITS OWN key,
+    signed by the root in hand (a foreign key left by an interrupted renewal is detected and the
+    pair replaced; before that check this failed:
+    `Witness.provision_alone_after_interrupted_renewal_mismatched_old_code`). -/
+theorem provision_alone_consistent (evs : List Event) (c : Cfg) :
+    ∃ m y, exec none (provision codeOrder c) (boot (runHist codeOrder evs Disk.empty)) = .ok m y ∧ m.Consistent := by
+  have hinv : InvAt c.now (runHist codeOrder evs Disk.empty).store :=
+    (reachable_invariant evs 0 Disk.empty (InvAt.empty 0)).any
+  have hw : wpn noErr (provision .keyFirst c) (fun m _ _ => m.Consistent)
+      (runHist codeOrder evs Disk.empty).store (runHist codeOrder evs Disk.empty).fresh := by
+    unfold provision
+    rw [wpn_bind]
+    refine wpn_mono ?_ _ _ _ (phaseN_root c.now c.now _ _ hinv)
+    intro root s1 fr1 hroot
+    rw [wpn_bind]
+    refine wpn_mono ?_ _ _ _ (phaseN_inter c.now c.now c.life root s1 fr1 hroot)
+    intro inter s2 _ hprov
+    exact ⟨hprov.1.2.2.2.1, hprov.1.2.2.2.2, hprov.2.2.2.1, hprov.2.2.2.2⟩
+  have := wpn_sound (provision .keyFirst c) _ (boot (runHist codeOrder evs Disk.empty)) hw
+  show ∃ m y, exec none (provision .keyFirst c) (boot (runHist codeOrder evs Disk.empty)) = .ok m y ∧ _
+  cases hr : exec none (provision .keyFirst c) (boot (runHist codeOrder evs Disk.empty)) with
+  | ok m y => rw [hr] at this; exact ⟨m, y, rfl, this⟩
+  | err e y => rw [hr] at this; exact this.elim
+  | crash y => rw [hr] at this; exact this.elim
 
 /-- **root_stable.**  Once a start-up has succeeded (even one during which a fault was
     injected), every later history of start-ups — interrupted anywhere, any number of
     restarts — leaves the stored root certificate and key unchanged, and every later start-up
     that returns uses that same root certificate. -/
-theorem root_stable (evs0 : List Event) (hm0 : Monotone 0 evs0) (e0 : Event) (he0 : lastTime 0 evs0 ≤ e0.cfg.now)
+theorem root_stable (evs0 : List Event) (e0 : Event)
     (m0 : Mem) (y0 : Sys) (h0 : e0.run codeOrder (runHist codeOrder evs0 Disk.empty) = .ok m0 y0)
     (evs : List Event) :
     (runHist codeOrder evs (e0.after codeOrder (runHist codeOrder evs0 Disk.empty))).store .rootCrt = some m0.root.crt ∧
@@ -78,7 +104,8 @@ theorem root_stable (evs0 : List Event) (hm0 : Monotone 0 evs0) (e0 : Event) (he
     ∀ (e : Event) (m : Mem) (y : Sys),
       e.run codeOrder (runHist codeOrder evs (e0.after codeOrder (runHist codeOrder evs0 Disk.empty))) = .ok m y →
       m.root.crt = m0.root.crt := by
-  have hinv := (reachable_invariant evs0 0 Disk.empty (InvAt.empty 0) hm0).mono he0
+  have hinv : InvAt e0.cfg.now (runHist codeOrder evs0 Disk.empty).store :=
+    (reachable_invariant evs0 0 Disk.empty (InvAt.empty 0)).any
   have hs := wp_sound e0.fault (startup .keyFirst e0.cfg) _ (boot (runHist codeOrder evs0 Disk.empty))
     (wp_startup_inv e0.cfg _ (runHist codeOrder evs0 Disk.empty).fresh hinv)
   have hheld : RootHeld e0.cfg.now m0 y0.store := by
@@ -103,30 +130,30 @@ theorem root_stable (evs0 : List Event) (hm0 : Monotone 0 evs0) (e0 : Event) (he
     under the current one -/
 example : ∃ m y, (Event.mk ⟨2, 100⟩ none).run codeOrder (runHist codeOrder [f10] Disk.empty) = .ok m y ∧
     m.Consistent ∧ Complete y.store m :=
-  recovery [f10] (by decide) ⟨2, 100⟩ (by decide)
+  recovery [f10] ⟨2, 100⟩
 
-/-- a stored intermediate certificate that is outside its renewal window at every later
-    start-up stays stored, with the key next to it -/
+/-- a stored intermediate certificate with its own key next to it, outside its renewal window
+    at every later start-up, stays stored, with that key -/
 theorem inter_frozen (i r ra : Nat) : ∀ (evs : List Event) (d : Disk), d.store .intCrt = some (.cert i r ra) →
-    (∀ e ∈ evs, e.cfg.now < ra) →
+    d.store .intKey = some (.key i) → (∀ e ∈ evs, e.cfg.now < ra) →
     (runHist codeOrder evs d).store .intCrt = some (.cert i r ra) ∧
     (runHist codeOrder evs d).store .intKey = d.store .intKey
-  | [], _, h, _ => ⟨h, rfl⟩
-  | e :: es, d, h, hnd => by
+  | [], _, h, _, _ => ⟨h, rfl⟩
+  | e :: es, d, h, hown, hnd => by
     have hs := wp_sound e.fault (startup codeOrder e.cfg) _ (boot d)
-      (wp_startup_inter_frozen codeOrder e.cfg d.store d.fresh i r ra h (hnd e (by simp)))
+      (wp_startup_inter_frozen codeOrder e.cfg d.store d.fresh i r ra h hown (hnd e (by simp)))
     have h1 : (e.after codeOrder d).store .intCrt = some (.cert i r ra) ∧
         (e.after codeOrder d).store .intKey = d.store .intKey :=
       hs.store_all (fun _ _ _ h => h.1) (fun _ _ h => h) (fun _ h => h)
-    have ih := inter_frozen i r ra es (e.after codeOrder d) h1.1 (fun e' he' => hnd e' (by simp [he']))
+    have ih := inter_frozen i r ra es (e.after codeOrder d) h1.1 (h1.2.trans hown)
+      (fun e' he' => hnd e' (by simp [he']))
     exact ⟨ih.1, ih.2.trans h1.2⟩
 
 /-- **intermediate_stable_until_renewal.**  After an uninterrupted start-up has succeeded,
     every later history of start-ups (interrupted anywhere) that happen before the
     intermediate's renewal window opens leaves the stored intermediate certificate and key
     unchanged, and every such start-up that returns uses that same intermediate and key. -/
-theorem intermediate_stable_until_renewal (evs0 : List Event) (hm0 : Monotone 0 evs0) (c0 : Cfg)
-    (he0 : lastTime 0 evs0 ≤ c0.now) (m0 : Mem) (y0 : Sys)
+theorem intermediate_stable_until_renewal (evs0 : List Event) (c0 : Cfg) (m0 : Mem) (y0 : Sys)
     (h0 : (Event.mk c0 none).run codeOrder (runHist codeOrder evs0 Disk.empty) = .ok m0 y0)
     (evs : List Event) (hnd : ∀ e ∈ evs, e.cfg.now < m0.inter.renewAt) :
     (runHist codeOrder evs ((Event.mk c0 none).after codeOrder (runHist codeOrder evs0 Disk.empty))).store .intCrt
@@ -137,19 +164,22 @@ theorem intermediate_stable_until_renewal (evs0 : List Event) (hm0 : Monotone 0 
       e.run codeOrder (runHist codeOrder evs ((Event.mk c0 none).after codeOrder (runHist codeOrder evs0 Disk.empty)))
         = .ok m y →
       m.inter = m0.inter := by
-  obtain ⟨m, y, hr, hcons, hcomp⟩ := recovery evs0 hm0 c0 he0
+  obtain ⟨m, y, hr, hcons, hcomp⟩ := recovery evs0 c0
   rw [h0] at hr
   cases hr
   have hafter : ((Event.mk c0 none).after codeOrder (runHist codeOrder evs0 Disk.empty)).store = y0.store := by
     simp [Event.after, h0, Res.sys]
   have hic : ((Event.mk c0 none).after codeOrder (runHist codeOrder evs0 Disk.empty)).store .intCrt
       = some (.cert m0.inter.pub m0.inter.signer m0.inter.renewAt) := by rw [hafter]; exact hcomp.2.2.1
-  have hfr := inter_frozen _ _ _ evs _ hic hnd
+  have hik : ((Event.mk c0 none).after codeOrder (runHist codeOrder evs0 Disk.empty)).store .intKey
+      = some (.key m0.inter.pub) := by
+    rw [hafter, hcomp.2.2.2, Pair.key, hcons.2.2.2]
+  have hfr := inter_frozen _ _ _ evs _ hic hik hnd
   refine ⟨hfr.1, by rw [hfr.2, hafter]; exact hcomp.2.2.2, ?_⟩
   intro e m y hlt hr
   have hs2 := wp_sound e.fault (startup codeOrder e.cfg) _
     (boot (runHist codeOrder evs ((Event.mk c0 none).after codeOrder (runHist codeOrder evs0 Disk.empty))))
-    (wp_startup_inter_frozen codeOrder e.cfg _ _ _ _ _ hfr.1 hlt)
+    (wp_startup_inter_frozen codeOrder e.cfg _ _ _ _ _ hfr.1 (hfr.2.trans hik) hlt)
   unfold Event.run at hr
   rw [hr] at hs2
   obtain ⟨⟨_, h2⟩, h3, h4⟩ := hs2
@@ -164,16 +194,14 @@ theorem intermediate_stable_until_renewal (evs0 : List Event) (hm0 : Monotone 0 
 
 /-! ### renewal at run time (the 10-minute maintenance pass of a running process)
 
-FULL STATEMENT (what the property asks for once the process keeps running between start-ups):
-    ∀ steps, StepsMonotone 0 steps → ∀ c ≥ lastStepTime, the uninterrupted start-up after
-    `runSteps steps World.empty` returns a consistent chain.
-It is FALSE for the tree as it is: `Witness.recovery_with_runtime_renewal_full_fails`.  What is
-true, and proved below, is the statement restricted to histories in which every maintenance pass
-starts with the process's in-memory intermediate certificate equal to the stored one
-(`SyncedAtTicks`, a decidable predicate evaluated along the model's own run).  That is always so
-right after an uninterrupted start-up (`synced_after_uninterrupted_startup`) and it is lost
-exactly when a renewal's certificate write reports an error AFTER having taken effect: the error
-is logged, memory keeps the old certificate, storage has the new one. -/
+A running process renews with ITS IN-MEMORY certificates, which are not re-read from storage.
+A renewal whose certificate write reports an error after taking effect is only logged, so memory
+and storage can disagree, and a later pass interrupted between its two writes leaves a stored
+certificate that is NOT due next to a foreign key.  Since `loadOrGenIntermediate` compares the
+loaded key with the loaded certificate this is harmless: the invariant `InvAt` admits any key
+next to an intermediate certificate, every pass keeps it under every fault, and the next
+start-up replaces the pair.  Before that check the statement was false
+(`Witness.recovery_with_runtime_renewal_old_code_fails`, reproduced on the real code then). -/
 
 def WInv (t : Nat) (w : World) : Prop :=
   InvAt t w.disk.store ∧ ∀ m life, w.proc = some (m, life) → RootHeld t m w.disk.store
@@ -185,35 +213,31 @@ theorem Res.Holds.mem_ok {Q : Mem → Store → Nat → Prop} {E : Store → Nat
   | err e y => cases hm
   | crash y => cases hm
 
-/-- **a maintenance pass interrupted in any way keeps the store recoverable**, provided the
-    process's in-memory intermediate certificate is the stored one -/
+/-- **a maintenance pass interrupted in any way keeps the store recoverable**, whatever the
+    process holds in memory as its intermediate -/
 theorem tick_keeps_invariant (now : Nat) (f : Option Fault) (life : Nat) (m : Mem) (d : Disk)
-    (h : RootHeld now m d.store) (hs : d.store .intCrt = some m.inter.crt) :
+    (h : RootHeld now m d.store) :
     (tickRun codeOrder now f life m d).Holds (fun m' s' _ => RootHeld now m' s') (fun s' _ => InvAt now s') (InvAt now) :=
-  wp_sound f (renew .keyFirst ⟨now, life⟩ m) _ (boot d)
-    (phase_renew' ⟨now, life⟩ m d.store d.fresh h (fun hd i r ra hh => by
-      rw [hs, Pair.crt] at hh; cases hh; exact hd))
+  wp_sound f (renew .keyFirst ⟨now, life⟩ m) _ (boot d) (phase_renew' ⟨now, life⟩ m d.store d.fresh h)
 
-theorem WInv.step (st : Step) (w : World) (t : Nat) (h : WInv t w) (ht : t ≤ st.now)
-    (hs : ∀ n f, st = .tick n f → w.synced) : WInv st.now (w.step codeOrder st) := by
+theorem WInv.step (st : Step) (w : World) (t : Nat) (h : WInv t w) : WInv st.now (w.step codeOrder st) := by
   cases st with
   | start e =>
     have hh := wp_sound e.fault (startup .keyFirst e.cfg) _ (boot w.disk)
-      (wp_startup_inv e.cfg w.disk.store w.disk.fresh (h.1.mono ht))
+      (wp_startup_inv e.cfg w.disk.store w.disk.fresh h.1.any)
     refine ⟨hh.store_all (fun _ _ _ h => h.1) (fun _ _ h => h) (fun _ h => h), ?_⟩
     intro m life hp
     simp only [World.step, Option.map_eq_some_iff, Prod.mk.injEq] at hp
     obtain ⟨m', hm', rfl, _⟩ := hp
     exact hh.mem_ok hm'
   | tick n f =>
-    have hsy := hs n f rfl
     simp only [World.step]
     cases hp : w.proc with
-    | none => exact ⟨h.1.mono ht, fun m life hp' => by rw [hp] at hp'; cases hp'⟩
+    | none => exact ⟨h.1.any, fun m life hp' => by rw [hp] at hp'; cases hp'⟩
     | some ml =>
       obtain ⟨m, life⟩ := ml
-      simp only [World.synced, hp] at hsy
-      have hh := tick_keeps_invariant n f life m w.disk ((h.2 m life hp).mono ht) hsy
+      have hheld : RootHeld n m w.disk.store := ⟨(h.2 m life hp).1.any, (h.2 m life hp).2⟩
+      have hh := tick_keeps_invariant n f life m w.disk hheld
       refine ⟨hh.store_all (fun _ _ _ h => h.1) (fun _ _ h => h) (fun _ h => h), ?_⟩
       intro m' life' hp'
       simp only [Option.map_eq_some_iff, Prod.mk.injEq] at hp'
@@ -221,25 +245,22 @@ theorem WInv.step (st : Step) (w : World) (t : Nat) (h : WInv t w) (ht : t ≤ s
       exact hh.mem_ok hm''
 
 /-- **every history of interrupted start-ups AND interrupted maintenance passes leaves a
-    recoverable store**, as long as every pass starts synced -/
+    recoverable store** -/
 theorem reachable_invariant_with_ticks : ∀ (sts : List Step) (t : Nat) (w : World), WInv t w →
-    StepsMonotone t sts → SyncedAtTicks codeOrder sts w → WInv (lastStepTime t sts) (runSteps codeOrder sts w)
-  | [], _, _, h, _, _ => h
-  | .start e :: sts, t, w, h, hm, hs =>
-    reachable_invariant_with_ticks sts e.cfg.now _ (h.step (.start e) w t hm.1 (fun _ _ hh => by cases hh)) hm.2 hs
-  | .tick n f :: sts, t, w, h, hm, hs =>
-    reachable_invariant_with_ticks sts n _ (h.step (.tick n f) w t hm.1 (fun _ _ _ => hs.1)) hm.2 hs.2
+    WInv (lastStepTime t sts) (runSteps codeOrder sts w)
+  | [], _, _, h => h
+  | st :: sts, t, w, h => reachable_invariant_with_ticks sts st.now _ (h.step st w t)
 
-/-- **recovery with renewal at run time (partial).**  After any history of start-ups and
-    maintenance passes, each interrupted at any storage operation in any of the four ways, in
-    which every pass starts synced, the next uninterrupted start-up succeeds with a consistent
-    chain that is exactly what the storage then contains. -/
-theorem recovery_with_runtime_renewal_partial (sts : List Step) (hm : StepsMonotone 0 sts)
-    (hs : SyncedAtTicks codeOrder sts World.empty) (c : Cfg) (hc : lastStepTime 0 sts ≤ c.now) :
+/-- **recovery with renewal at run time.**  After any history of start-ups and maintenance
+    passes of the processes they leave running, each interrupted at any storage operation in
+    any of the four ways, the next uninterrupted start-up succeeds with a consistent chain that
+    is exactly what the storage then contains. -/
+theorem recovery_with_runtime_renewal (sts : List Step) (c : Cfg) :
     ∃ m y, (Event.mk c none).run codeOrder (runSteps codeOrder sts World.empty).disk = .ok m y ∧
       m.Consistent ∧ Complete y.store m := by
   have hw : WInv 0 World.empty := ⟨InvAt.empty 0, fun m life hp => by cases hp⟩
-  have hinv := (reachable_invariant_with_ticks sts 0 World.empty hw hm hs).1.mono hc
+  have hinv : InvAt c.now (runSteps codeOrder sts World.empty).disk.store :=
+    (reachable_invariant_with_ticks sts 0 World.empty hw).1.any
   have := wpn_sound (startup .keyFirst c) _ (boot (runSteps codeOrder sts World.empty).disk)
     (wpn_startup c _ (runSteps codeOrder sts World.empty).disk.fresh hinv)
   show ∃ m y, exec none (startup .keyFirst c) (boot (runSteps codeOrder sts World.empty).disk) = .ok m y ∧ _
@@ -248,21 +269,16 @@ theorem recovery_with_runtime_renewal_partial (sts : List Step) (hm : StepsMonot
   | err e y => rw [hr] at this; exact this.elim
   | crash y => rw [hr] at this; exact this.elim
 
-/-- the exclusion is met in the ordinary case: a process left by an UNINTERRUPTED start-up is
-    synced (so its first maintenance pass, interrupted however, is covered) -/
-theorem synced_after_uninterrupted_startup (sts : List Step) (hm : StepsMonotone 0 sts)
-    (hs : SyncedAtTicks codeOrder sts World.empty) (c : Cfg) (hc : lastStepTime 0 sts ≤ c.now) :
-    ((runSteps codeOrder sts World.empty).step codeOrder (.start ⟨c, none⟩)).synced := by
-  obtain ⟨m, y, hr, _, hcomp⟩ := recovery_with_runtime_renewal_partial sts hm hs c hc
-  simp only [World.step, World.synced, hr, Res.mem?, Option.map_some, Res.disk, Res.sys]
-  exact hcomp.2.2.1
+/-- the history that defeated the code before the pair check (`Witness.runtimeWitness`: a
+    certificate write that reports an error after taking effect, then a pass killed between its
+    two writes) leaves a NOT-due certificate next to a foreign key … -/
+example : (runSteps codeOrder runtimeWitness World.empty).disk.store .intCrt = some (.cert 3 0 102) ∧
+    (runSteps codeOrder runtimeWitness World.empty).disk.store .intKey = some (.key 4) := by decide
 
-/-- a maintenance pass renews (lifetime 0: always due), is killed after the key write, and the
-    next start-up still ends consistent: the pass started synced -/
-example : SyncedAtTicks codeOrder [.start ⟨⟨1, 0⟩, none⟩, .tick 2 (some ⟨3, .crashAfter⟩)] World.empty ∧
-    StepsMonotone 0 [.start ⟨⟨1, 0⟩, none⟩, .tick 2 (some ⟨3, .crashAfter⟩)] ∧
-    (runSteps codeOrder [.start ⟨⟨1, 0⟩, none⟩, .tick 2 (some ⟨3, .crashAfter⟩)] World.empty).disk.store .intKey
-      = some (.key 3) := by decide
+/-- … and is an instance of the theorem -/
+example : ∃ m y, (Event.mk ⟨4, 100⟩ none).run codeOrder (runSteps codeOrder runtimeWitness World.empty).disk = .ok m y ∧
+    m.Consistent ∧ Complete y.store m :=
+  recovery_with_runtime_renewal runtimeWitness ⟨4, 100⟩
 
 /-! ### non-vacuity (kernel-evaluated) -/
 
@@ -283,8 +299,8 @@ example : ((Event.mk ⟨2, 100⟩ none).run codeOrder
     = some (.cert 1 1 (2 + rootLife)) := by decide
 
 /-- an interrupted RENEWAL (intermediate lifetime 0, start-up 2 dies after writing the new
-    intermediate key): certificate 2 is stored next to key 3 — the mismatch `InvAt` allows
-    because certificate 2 is due; start-up 3 renews again and ends consistent -/
+    intermediate key): certificate 2 is stored next to key 3 — the foreign key `InvAt` allows;
+    `Provision` of start-up 3 detects it, generates pair 4 and ends consistent -/
 example : (runHist codeOrder [⟨⟨1, 0⟩, none⟩, ⟨⟨2, 0⟩, some ⟨7, .crashAfter⟩⟩] Disk.empty).store .intCrt = some (.cert 2 0 1) ∧
     (runHist codeOrder [⟨⟨1, 0⟩, none⟩, ⟨⟨2, 0⟩, some ⟨7, .crashAfter⟩⟩] Disk.empty).store .intKey = some (.key 3) := by decide
 
@@ -292,7 +308,6 @@ example : ((Event.mk ⟨3, 50⟩ none).run codeOrder
       (runHist codeOrder [⟨⟨1, 0⟩, none⟩, ⟨⟨2, 0⟩, some ⟨7, .crashAfter⟩⟩] Disk.empty)).sys.store .intCrt
     = some (.cert 4 0 53) := by decide
 
-example : Monotone 0 [⟨⟨1, 0⟩, none⟩, ⟨⟨2, 0⟩, some ⟨7, .crashAfter⟩⟩] := by decide
 
 /-- hypotheses of root_stable / intermediate_stable_until_renewal: a start-up that succeeds,
     later start-ups before the renewal window (101) opens -/
